@@ -514,6 +514,44 @@ def d26_probe(d):
         R.notes.append('D26 fractional-start probe raised ' + type(e).__name__)
 
 
+# ------------------------------------------------------------------------------------------------ shared caller objects
+def shared_arguments(d):
+    """NumPy route: what the caller hands to one conversion (header dict, axis arrays) is the caller's; a later conversion that
+    is given the same objects again -- or relies on the defaults -- must report ITS OWN source's axes.  Two cubes of the same
+    il x xl shape, one header dict (without inline / crossline fields) passed to both converters: the first with explicit
+    axes, the second with the default axes."""
+    import segyio as _s
+    n_il, n_xl, ns = rng.choice([(6, 7, 5), (4, 9, 6), (5, 5, 9)])
+    hdrs = {_s.TraceField.CDP_X: (np.arange(n_il * n_xl, dtype=np.int32).reshape(n_il, n_xl) * 3 + 11),
+            _s.TraceField.CDP_Y: (np.arange(n_il * n_xl, dtype=np.int32).reshape(n_il, n_xl) * -2 + 5000)}
+    keys0 = sorted(int(k) for k in hdrs)
+    il_a = np.arange(2100, 2100 - 5 * n_il, -5, dtype=np.int32)
+    xl_a = np.arange(-40, -40 + 3 * n_xl, 3, dtype=np.int32)
+    z_a = 100.0 + 2.0 * np.arange(ns)
+    runs = [('A (explicit axes)', dict(ilines=il_a, xlines=xl_a, samples=z_a), il_a.tolist(), xl_a.tolist(), z_a.tolist()),
+            ('B (default axes, same header dict)', {}, list(range(n_il)), list(range(n_xl)), None),
+            ('C (explicit axes again, same header dict)', dict(ilines=il_a + 7, xlines=xl_a, samples=z_a), (il_a + 7).tolist(), xl_a.tolist(), z_a.tolist())]
+    for name, kw, want_il, want_xl, want_z in runs:
+        p = os.path.join(d, 'shared.sgz')
+        inp = {'route': 'numpy, shared header dict', 'shape': [n_il, n_xl, ns], 'conversion': name}
+        try:
+            with NumpyConverter(rnd_cube(rng, (n_il, n_xl, ns)), trace_headers=hdrs, **kw) as c:
+                quiet(c.run, p, bits_per_voxel=8)
+            with SgzReader(p) as r:
+                got_il, got_xl, got_z = [int(v) for v in r.ilines], [int(v) for v in r.xlines], [float(v) for v in r.zslices]
+                if got_il != want_il or got_xl != want_xl or (want_z is not None and got_z != want_z) or r.tracecount != n_il * n_xl or not r.structured:
+                    R.violation('oracle', inp, f'axes of the SGZ {got_il[:3]}.. / {got_xl[:3]}.. differ from those of its source {want_il[:3]}.. / {want_xl[:3]}..')
+                g = r.get_tracefield_values(189)
+                if [int(v) for v in g[:, 0]] != want_il:
+                    R.violation('oracle', inp, f'inline header grid {[int(v) for v in g[:, 0]][:4]}.. is not the source axis {want_il[:4]}..')
+        except Exception as e:
+            R.violation('oracle', inp, f'valid NumPy conversion raised {type(e).__name__}: {e}')
+        if sorted(int(k) for k in hdrs) != keys0 and not any('caller\'s header dict' in n_ for n_ in R.notes):
+            R.notes.append('a converter inserted fields into the caller\'s header dict')
+        R.case(('shared-args', name, n_il, n_xl, ns), sample=inp)
+        R.count('numpy: shared caller objects')
+
+
 # ------------------------------------------------------------------------------------------------ main
 def main():
     if a.replay:
@@ -549,6 +587,7 @@ def main():
                 R.count('negative_line_numbers')
         if not a.replay:
             d26_probe(d)
+            shared_arguments(d)
     finally:
         shutil.rmtree(d, ignore_errors=True)
     if not a.no_model or True:      # the model is evaluated inside Coq (coqeval), independent of the extracted driver
